@@ -80,7 +80,7 @@ def REQUIRED(tier):
         "handedness.absolute-judged": 100,
         "variant.permute.compared": 100, "variant.translate.compared": 100, "variant.renumber.compared": 100,
         "variant.reorder.compared": 100,
-        "determinism.same-object": 100, "determinism.cold-object": 100, "determinism.reseeded": 100,
+        "determinism.same-object": 100, "determinism.same-object-after-edit": 100, "determinism.cold-object": 100, "determinism.reseeded": 100,
         "determinism.fresh-process": 100,
         "reach.3dify.ring": 20, "reach.3dify.acyclic": 20, "reach.3dify.bold-hash": 5, "reach.nested-join": 20,
         "attachment-points.compared": 50, "rewrite.self-check": 100, "variant.translation-sweep.compared": 200,
@@ -1071,6 +1071,24 @@ def check_determinism(ctx, np, ml, CDXMLFile, snap, diff, file, src, labels, bas
             compare("same-object", lb, snap(cf0[lb]))
         except Exception as e:  # noqa
             compare("same-object", lb, e)
+    # same object once more, after the caller has worked on the molecule it got before (a label resolves to the
+    # drawn fragment, not to whatever an earlier result has been turned into)
+    for lb in labels:
+        try:
+            m = cf0[lb]
+            m.name = "edited-by-caller"
+            m.charge = (m.charge or 0) + 3
+            if m.n_atoms:
+                m.translate([5.0, -4.0, 3.0])
+                m.atoms[0].label = "EDITED"
+                m.atoms[-1].formal_charge = 7
+            try:
+                m.add_implicit_hydrogens()
+            except Exception:  # noqa
+                pass
+            compare("same-object-after-edit", lb, snap(cf0[lb]))
+        except Exception as e:  # noqa
+            compare("same-object-after-edit", lb, e)
     # cold object, labels in reverse order
     cf = CDXMLFile(src)
     for lb in reversed(labels):
